@@ -39,6 +39,61 @@ def newton_failure(exc):
     raise exc
 
 
+def neo_hooke_energy(F, mu, bulk=None):
+    """Closed form of the Neo-Hookean energy  mu/2 (J^-2/3 tr(C) - 3) [+ bulk/2 (J - 1)^2]  per quadrature point, written out here:
+    the "base energy" of the running-maximum clauses must not come from the method the pseudo-elastic law itself calls for it
+    (`NeoHooke.function`; fourth audit C15-2: a wrong energy was on both sides)."""
+    F = np.asarray(F, float)
+    J = np.linalg.det(np.moveaxis(np.moveaxis(F, 0, -1), 0, -1))
+    trC = (F ** 2).sum((0, 1))
+    W = mu / 2 * (J ** (-2 / 3) * trC - 3)
+    if bulk is not None:
+        W = W + bulk / 2 * (J - 1) ** 2
+    return W
+
+
+def plastic_strain_of(sig, eps, E, nu):
+    """Plastic strain that belongs to a returned stress: eps_p = eps - S : sig with the isotropic compliance written out here
+    (Young's modulus and Poisson ratio as the caller passed them), nothing read from the state of the law."""
+    I = np.eye(3).reshape((3, 3) + (1,) * (np.ndim(sig) - 2))
+    return eps - ((1 + nu) * sig - nu * np.trace(sig) * I) / E
+
+
+def check_drawn(run, events, drawn, label):
+    """The trace clauses `ramp-order` and `continuation` once more, with expectations that do not come from the Step object (the
+    offline checker takes the ramp from `step.ramp` and the start state of a step from the field at `generate()` - fourth audit C15-4):
+    substep k of step j updates every item of the caller's j-th dictionary exactly once, with the caller's k-th value, before Newton
+    is called; the first Newton call of step j+1 starts from the state the last converged substep of step j returned."""
+    j, k, upd, last_x, first = -1, 0, {}, None, False
+    for e in events:
+        kind = e["kind"]
+        if kind == "step.begin":
+            j, k, upd, first = j + 1, 0, {}, True
+            if j >= len(drawn):
+                run.fail("trace", "trace clause=drawn-ramp-order", "%s: more steps were run than the job was given" % label)
+                return
+        elif j < 0:
+            continue
+        elif kind == "item.update":
+            upd.setdefault(e["item"], []).append(np.asarray(e["value"], float))
+        elif kind == "newton.call":
+            bad = [i_ for i_, v_ in drawn[j].items()
+                   if len(upd.get(i_, [])) != 1 or k >= len(v_) or not np.array_equal(upd[i_][0], v_[k])]
+            if bad or set(upd) - set(drawn[j]):
+                run.fail("trace", "trace clause=drawn-ramp-order", "%s: substep %d of step %d was not solved with value [%d] of every item of the "
+                         "ramp dictionary the caller passed (each updated exactly once, no other item)" % (label, k, j, k))
+            else:
+                run.ok("trace", unit="trace:drawn-ramp-order")
+            if first and last_x is not None:
+                if e["x"] == last_x:
+                    run.ok("trace", unit="trace:continuation-across-steps")
+                else:
+                    run.fail("trace", "trace clause=continuation-across-steps", "%s: step %d does not start from the last converged state of step %d" % (label, j, j - 1))
+            first, upd, k = False, {}, k + 1
+        elif kind == "newton.return" and e["success"]:
+            last_x = e["x"]
+
+
 def case_history(rep):
     def fn(run):
         import felupe as fem
@@ -49,7 +104,7 @@ def case_history(rep):
                               ("ni", "hexahedron", "-"), ("mixed", "hexahedron", "-"), ("3d", "tetra", "OgdenRoxburgh"),
                               ("planestrain", "quad8", "OgdenRoxburgh")][rep % 7]
             extras = [(), ("pressure",), ("pointload",), ("force",), ("pressure", "force")][(rep // 7) % 5] if fam in ("hexahedron", "quad") else ()
-            field, bounds, lc, items, mesh = C07.build(rng, kind, fam, mat, extras)
+            field, bounds, lc, items, mesh = C07.build(rng, kind, fam, mat, extras)[:5]  # (a later C07.build hands a sixth value, its own shadow)
             x0_other = None
             if rep % 8 == 6:
                 # a start container of its own (same layout as the items' one): the boundary conditions of the steps live on it
@@ -63,6 +118,12 @@ def case_history(rep):
                     rebound[name] = nb_
                 bounds = rebound
             L0 = float(mesh.points[:, 0].max())
+            # for the loads in effect (below): the box [0, L] has the volume prod(L) (unit thickness in plane strain, one full revolution
+            # about the first axis in the axisymmetric case), the point load sits on the first two points outside all boundaries
+            Lbox = mesh.points.max(0)
+            V0 = float(np.pi * Lbox[0] * Lbox[1] ** 2) if kind == "axisymmetric" else float(np.prod(Lbox))
+            free2 = np.setdiff1d(np.arange(mesh.npoints), np.unique(np.concatenate([b_.points for b_ in bounds.values()])))[:2]
+            drawn = []  # per step: the caller's own ramp dictionary {id(item): values}, kept here (not read back from the Step)
             nsteps = int(rng.integers(1, 4))
             inject = rep % 3 == 1
             by_maxiter = inject and rep % 2 == 1  # the other failure path: iteration limit exhausted (norms stay finite)
@@ -101,6 +162,7 @@ def case_history(rep):
                     move[k] = (last + 1.5 * L0) if by_maxiter else -4.0 * L0
                     ramp[bounds["move"]] = move
                     fail_at = total + k
+                drawn.append({id(k_): np.array(v_, dtype=float) for k_, v_ in ramp.items()})
                 steps.append(fem.Step(items, ramp=ramp, boundaries=bounds))
                 ramps.append(np.array(move, dtype=float))
                 last = float(move[-1])
@@ -114,6 +176,27 @@ def case_history(rep):
                 # the converged state of substep i of step j carries the i-th value of that step's ramp on the moved face
                 got = np.asarray(res.x[0].values)[mp, 0]
                 carried.append(float(np.max(np.abs(got - ramps[j][i]))))
+                # the load in effect: the load vector of a ramped item, assembled when its substep has converged, is the one of the i-th
+                # drawn value (the trace clause `ramp-order` sees the argument of update() only - fourth audit C15-3): the body force
+                # sums up to value x volume, the point load is the value on its points and zero elsewhere. (Assembled anew through the
+                # documented method: `results.force` of the last iteration carries Newton's sign of the residual, an implementation detail)
+                d = field[0].dim
+                for it in items[1:]:
+                    nm = type(it).__name__
+                    if id(it) not in drawn[j] or nm not in ("SolidBodyForce", "PointLoad"):
+                        continue
+                    want = drawn[j][id(it)][i]
+                    fv = np.asarray(it.assemble.vector().toarray(), float).ravel()
+                    rows = fv[:mesh.npoints * d].reshape(-1, d)
+                    if nm == "SolidBodyForce":
+                        err = max(maxabs(rows.sum(0) - want[:d] * V0), maxabs(fv[mesh.npoints * d:]) if fv.size > mesh.npoints * d else 0.0) / (0.2 * V0)
+                        in_effect.append(("force", err))
+                    else:
+                        ref = np.zeros_like(rows)
+                        ref[free2] = want
+                        err = max(maxabs(rows - ref), maxabs(fv[mesh.npoints * d:]) if fv.size > mesh.npoints * d else 0.0) / 0.02
+                        in_effect.append(("pointload", err))
+            in_effect = []
             use_x0 = rep % 4 == 2
             job = fem.Job(steps, callback=on_substep)
             kw = dict(verbose=False, tol=1e-9, maxiter=10)
@@ -142,6 +225,13 @@ def case_history(rep):
                 run.compare("trace", "trace clause=converged-state-carries-the-ramp-value", max(carried), 1e-13,
                             "%s: a converged substep does not carry the ramp value of its position on the moved boundary" % label,
                             unit="trace:state-carries-ramp-value", config=("carries", kind))
+            for nm in ("force", "pointload"):
+                errs = [e_ for n_, e_ in in_effect if n_ == nm]
+                if errs:
+                    run.compare("trace", "trace clause=load-in-effect-is-the-ramp-value item=%s" % nm, max(errs), 1e-12,
+                                "%s: the load vector of a ramped %s in a converged substep is not the one of the ramp value of that substep" % (label, nm),
+                                unit="trace:load-in-effect:" + nm, config=("load-in-effect", nm, kind))
+            check_drawn(run, mon.trace.events, drawn, label)
             if inject:
                 if raised is not None and nyield == fail_at:
                     run.ok("trace", unit="trace:injected-failure-position", config="injected@%d" % fail_at)
@@ -188,11 +278,13 @@ def case_running_max(rep):
             bounds, lc = fem.dof.uniaxial(field, clamped=True)
             move = np.concatenate([np.linspace(0, 0.3, 4)[1:], np.linspace(0.3, 0.05, 3)[1:], np.linspace(0.05, 0.45, 4)[1:]]) * L[0]
             step = fem.Step([body], ramp={bounds["move"]: move}, boundaries=bounds)
-            wmax = None
+            wmax = wmax_ad = None
             k = 0
             for res in step.generate(verbose=False, tol=1e-9):
                 F = res.x.extract()[0]
-                W = base.function([F, None])[0] if hand else ad_energy("tensortrax", fem.neo_hooke, F, mu=1.0)
+                # the base energy in closed form (hand-coded law: NeoHooke(mu=1, bulk=5); tensortrax law: the isochoric part alone, the
+                # volumetric term sits outside the pseudo-elastic law) - not from `base.function`, which the law calls itself
+                W = neo_hooke_energy(F, 1.0, 5.0 if hand else None)
                 wmax = W if wmax is None else np.maximum(wmax, W)
                 sv = body.results.statevars
                 stored = sv[0] if hand else sv[0]
@@ -200,6 +292,14 @@ def case_running_max(rep):
                             maxabs(stored - wmax) / max(maxabs(wmax), 1e-300), 1e-9,
                             "stored maximum energy is not the running maximum of the base energy over the converged substeps",
                             unit="or:running-max:" + ("hand" if hand else "ad"), config=("wmax", hand, k))
+                if not hand:
+                    # (the reference this clause had before the fourth audit: the model function evaluated on the oracle's side)
+                    Wad = ad_energy("tensortrax", fem.neo_hooke, F, mu=1.0)
+                    wmax_ad = Wad if wmax_ad is None else np.maximum(wmax_ad, Wad)
+                    run.compare("history.ogden-roxburgh", "model=tensortrax clause=running-maximum",
+                                maxabs(stored - wmax_ad) / max(maxabs(wmax_ad), 1e-300), 1e-9,
+                                "stored maximum energy is not the running maximum of the base energy over the converged substeps",
+                                unit="or:running-max:ad", config=("wmax", hand, k))
                 k += 1
             check_trace(run, mon.trace, "running-max history")
         finally:
@@ -299,30 +399,42 @@ def case_or_material(which):
             base = fem.NeoHooke(mu=mu, bulk=bulk)
             um = fem.OgdenRoxburgh(base, r=r, m=m, beta=beta)
             energy = lambda F: base.function([F, None])[0]
+            # the base energy in closed form from the drawn parameters (`base.function` is what the law itself calls for W: with it
+            # alone a wrong energy is on both sides - fourth audit C15-2)
+            energy_own = lambda F: neo_hooke_energy(F, mu, bulk)
             stress = lambda F: base.gradient([F, None])[0]
         else:
             base = fem.Hyperelastic(fem.neo_hooke, mu=mu)
             um = fem.Hyperelastic(fem.ogden_roxburgh, material=fem.neo_hooke, mu=mu, r=r, m=m, beta=beta, nstatevars=1)
             energy = lambda F: ad_energy("tensortrax", fem.neo_hooke, F, mu=mu)
+            energy_own = lambda F: neo_hooke_energy(F, mu)
             stress = lambda F: base.gradient([F, None])[0]
         nh = 40 if run.tier == "quick" else 200
         lam_max = float(rng.uniform(1.5, 2.5))
         shear = float(rng.uniform(0, 0.3))
+        vol = float(rng.uniform(0.02, 0.1))  # the volume grows with the stretch: the volumetric part of the base energy takes part in the history
         up = np.linspace(1.0, lam_max, nh)
         down = np.linspace(lam_max, 1.1, nh // 2)
         path = np.concatenate([up, down[1:], down[::-1][1:], np.linspace(lam_max, lam_max * 1.2, 10)[1:]])
         sv = np.zeros((1, 1, 1))
         wmax = np.zeros((1, 1))
+        wmax_own = np.zeros((1, 1))
         seen = {}
         mon = "history.ogden-roxburgh"
         for k, lam in enumerate(path):
-            F = stretch_F(lam, shear * (lam - 1))
+            F = stretch_F(lam, shear * (lam - 1)) * (1 + vol * (lam - 1)) ** (1 / 3)
             W = energy(F)
             P, sv_new = um.gradient([F, sv])
             primary = bool(W >= wmax - 1e-14)
             wmax = np.maximum(wmax, W)
             run.compare(mon, "model=%s clause=running-maximum" % which, maxabs(sv_new[0] - wmax) / max(maxabs(wmax), 1e-300), 1e-12,
                         "stored maximum energy != running maximum of the base energy", unit="or:running-max:" + which, config=("or", which, "max"))
+            # the same clause against the closed form; the error is measured against the terms that enter the energy (mu/2 J^-2/3 tr C
+            # and 3 mu/2 cancel near the undeformed state: W itself is no scale for a reference that is not bit-identical)
+            wmax_own = np.maximum(wmax_own, energy_own(F))
+            run.compare(mon, "model=%s clause=running-maximum-closed-form" % which, maxabs(sv_new[0] - wmax_own) / max(maxabs(wmax_own), mu), 1e-12,
+                        "stored maximum energy != running maximum of the closed-form base energy", unit="or:running-max-closed-form:" + which,
+                        config=("or", which, "max-closed-form"))
             if primary:
                 Pb = stress(F)
                 run.compare(mon, "model=%s clause=primary-path" % which, maxabs(P - Pb) / max(maxabs(Pb), 1e-300), 1e-10,
@@ -357,6 +469,10 @@ def case_plasticity(rep):
         H = np.zeros((3, 3, *n))
         amp = 3 * sy / E
         alpha_prev = np.zeros(n)
+        # the check's own history (fourth audit C15-1: with the law's own alpha as hardening variable a too large alpha widens the yield
+        # surface and "f <= 0" holds trivially): plastic strain from the returned stress, equivalent plastic strain accumulated from it
+        ep_own = np.zeros((3, 3, *n))
+        al_own = np.zeros(n)
         mon = "history.plasticity"
         nplastic = 0
         for k in range(nstep):
@@ -381,6 +497,29 @@ def case_plasticity(rep):
                         "stored stress of the state differs from the returned stress", unit="plasticity:stored")
             run.compare(mon, "clause=stored-strain", maxabs(sv_new[10:19].reshape(3, 3, *n) - eps) / max(maxabs(eps), 1e-300), 1e-13,
                         "stored strain of the state differs from the applied strain", unit="plasticity:stored")
+            # own reference: eps_p = eps - S : sig (drawn E, nu), alpha = sum sqrt(2/3) |d eps_p|; the yield function with the drawn sy, K
+            ep_new = plastic_strain_of(sig, eps, E, nu)
+            dal = np.sqrt(2 / 3) * np.sqrt(((ep_new - ep_own) ** 2).sum((0, 1)))
+            al_own = al_own + dal
+            ep_own = ep_new
+            f_own = np.sqrt((dev ** 2).sum((0, 1))) - np.sqrt(2 / 3) * (sy + K * al_own)
+            run.compare(mon, "clause=yield-condition-own-plastic-strain", max(0.0, float(f_own.max())) / sy, 1e-9,
+                        "yield function (hardening from the plastic strain accumulated out of the returned stresses) positive after the stress update",
+                        unit="plasticity:yield-own", config=("plasticity", "yield-own"))
+            flow = dal > 1e-6 * amp
+            if flow.any():
+                # where plastic strain grew in this update the stress lies on the yield surface (the yield condition of a plastic step
+                # is f = 0: a return that overshoots into the elastic domain is no return onto the yield surface)
+                run.compare(mon, "clause=yield-condition-on-surface-after-plastic-flow", float(np.abs(f_own[flow]).max()) / sy, 1e-9,
+                            "the stress of a plastic update does not lie on the yield surface", unit="plasticity:on-surface",
+                            config=("plasticity", "on-surface"))
+            # the stored history variables are this history: equivalent plastic strain and plastic strain of the state
+            run.compare(mon, "clause=stored-equivalent-plastic-strain", maxabs(alpha - al_own) / amp, 1e-9,
+                        "stored equivalent plastic strain differs from the one accumulated out of the returned stresses",
+                        unit="plasticity:stored-alpha", config=("plasticity", "stored-alpha"))
+            run.compare(mon, "clause=stored-plastic-strain", maxabs(ep - ep_own) / amp, 1e-10,
+                        "stored plastic strain differs from the strain minus the elastic strain of the returned stress",
+                        unit="plasticity:stored-plastic-strain", config=("plasticity", "stored-plastic-strain"))
             alpha_prev = alpha.copy()
             sv = sv_new
         if nplastic == 0:
@@ -407,7 +546,9 @@ def case_fe_history(rep):
             field = fem.FieldContainer([fem.Field(fem.RegionHexahedron(mesh), dim=3)])
         b, _ = fem.dof.uniaxial(field, clamped=True, move=0.0)
         if which.startswith("plasticity"):
-            um = fem.LinearElasticPlasticIsotropicHardening(E=100.0, nu=float(rng.uniform(0.2, 0.35)), sy=1.0, K=float(rng.uniform(0, 20)))
+            nu_ = float(rng.uniform(0.2, 0.35))
+            K_ = float(rng.uniform(0, 20))
+            um = fem.LinearElasticPlasticIsotropicHardening(E=100.0, nu=nu_, sy=1.0, K=K_)
             body = fem.SolidBody(um, field)
             move = np.array([0.005, 0.02, 0.02, 0.04, 0.01, -0.03, -0.03, 0.0, 0.05]) * float(L[0]) * float(rng.uniform(0.8, 1.2))
             law = um
@@ -421,11 +562,46 @@ def case_fe_history(rep):
         step = fem.Step([body], ramp={b["move"]: moves}, boundaries=b)
         sv = np.array(body.results.statevars, copy=True)
         nconv, raised = 0, False
+        # the check's own history next to the one carried by the law (fourth audit C15-1 / C15-2: `law.gradient` is the law under test)
+        ep_own, al_own, wmax_own = 0.0, 0.0, 0.0
         try:
             for res in step.generate(verbose=False, tol=1e-10, maxiter=12):
                 Fc = res.x.extract()[0]
-                trial = np.asarray(law.gradient([Fc, sv])[-1], float)
+                out = law.gradient([Fc, sv])
+                trial = np.asarray(out[-1], float)
                 new = np.asarray(body.results.statevars, float)
+                if which.startswith("plasticity"):
+                    # plastic strain from the stress of the converged deformation with the drawn E = 100, nu (own compliance), equivalent
+                    # plastic strain accumulated from it, yield function with the drawn sy = 1, K: the committed alpha / eps_p are those
+                    sig = np.asarray(out[0], float)
+                    Hc = np.asarray(Fc, float) - np.eye(3).reshape(3, 3, 1, 1)
+                    ep_new = plastic_strain_of(sig, (Hc + Hc.transpose(1, 0, 2, 3)) / 2, 100.0, nu_)
+                    dal = np.sqrt(2 / 3) * np.sqrt(((ep_new - ep_own) ** 2).sum((0, 1)))
+                    al_own, ep_own = al_own + dal, ep_new
+                    dev = sig - np.trace(sig) / 3 * np.eye(3).reshape(3, 3, 1, 1)
+                    f_own = np.sqrt((dev ** 2).sum((0, 1))) - np.sqrt(2 / 3) * (1.0 + K_ * al_own)
+                    run.compare(mon, "body=%s clause=yield-condition-own-plastic-strain" % which, max(0.0, float(f_own.max())), 1e-11,
+                                "yield function (hardening from the plastic strain accumulated over the converged substeps) positive after a converged substep",
+                                unit="fe-history:own:" + which, config=("fe-history", which, "yield-own"))
+                    if (dal > 1e-8).any():
+                        run.compare(mon, "body=%s clause=yield-condition-on-surface-after-plastic-flow" % which, float(np.abs(f_own[dal > 1e-8]).max()), 1e-11,
+                                    "the stress of a converged substep with plastic flow does not lie on the yield surface",
+                                    unit="fe-history:on-surface:" + which, config=("fe-history", which, "on-surface"))
+                    # (errors in units of the yield strain sy / E = 0.01)
+                    run.compare(mon, "body=%s clause=committed-equivalent-plastic-strain" % which, maxabs(new[0] - al_own) / 0.01, 1e-11,
+                                "the committed equivalent plastic strain is not the one accumulated out of the stresses of the converged substeps",
+                                unit="fe-history:own:" + which, config=("fe-history", which, "alpha-own"))
+                    run.compare(mon, "body=%s clause=committed-plastic-strain" % which, maxabs(new[1:10].reshape(ep_new.shape) - ep_own) / 0.01, 1e-11,
+                                "the committed plastic strain is not the strain minus the elastic strain of the stress of the converged substep",
+                                unit="fe-history:own:" + which, config=("fe-history", which, "plastic-strain-own"))
+                else:
+                    # the committed maximum is the running maximum of the closed-form base energy (NeoHooke(mu=1), no volumetric part)
+                    # at the converged deformations; measured against mu (see the material-level clause)
+                    wmax_own = np.maximum(wmax_own, neo_hooke_energy(Fc, 1.0))
+                    run.compare(mon, "body=%s clause=committed-maximum-is-closed-form-running-maximum" % which,
+                                maxabs(new[0] - wmax_own) / max(maxabs(wmax_own), 1.0), 1e-12,
+                                "the committed maximum energy is not the running maximum of the closed-form base energy over the converged substeps",
+                                unit="fe-history:own:" + which, config=("fe-history", which, "wmax-own"))
                 scale = max(maxabs(trial), 1e-300)
                 tol = 1e-12 if which.startswith("plasticity") else 1e-9
                 if not which.startswith("plasticity"):
@@ -475,7 +651,7 @@ def case_path_independence(rep):
         for nsub in (1, 4, 9):
             r2 = np.random.default_rng(0)
             r2.bit_generator.state = state
-            field, bounds, lc, items, mesh = C07.build(r2, kind, fam, "NeoHooke", ())
+            field, bounds, lc, items, mesh = C07.build(r2, kind, fam, "NeoHooke", ())[:5]
             target = 0.2 * float(mesh.points[:, 0].max())
             if nsub == 4:
                 move = np.array([0.5, -0.2, 0.7, 1.0]) * target  # a different, non-monotone path to the same end
@@ -508,7 +684,7 @@ def case_load_path(rep):
         for variant in ("constructed", "one-substep", "detour"):
             r2 = np.random.default_rng(0)
             r2.bit_generator.state = state
-            field, bounds, lc, items, mesh = C07.build(r2, kind, fam, "NeoHooke", ())
+            field, bounds, lc, items, mesh = C07.build(r2, kind, fam, "NeoHooke", ())[:5]
             d = field[0].dim
             L = mesh.points.max(0)
             target = 0.1 * float(L[0])
@@ -586,7 +762,13 @@ SPEC = {
                        "or:running-max:tensortrax", "or:primary:hand", "or:primary:tensortrax", "or:reload:hand", "or:reload:tensortrax",
                        "plasticity:yield", "plasticity:monotone", "plasticity:plastic-steps", "trace:state-carries-ramp-value", "trace:generate-with-distinct-x0", "trace:results=ramp-values", "trace:job-x0-distinct",
                        "fe-history:plasticity", "fe-history:ni-ogden-roxburgh", "fe-history:failure:plasticity", "load-path:pointload-axi", "load-path:pressure", "load-path:force", "load-path:pointload", "load-path:pointload-apply-on",
-                       "purity:committed-state-untouched:OgdenRoxburgh", "purity:committed-state-untouched:Plasticity", "purity:committed-state-untouched:MaterialStrain(linear_elastic)", "purity:repeatable:tt.finite_strain_viscoelastic"],
+                       "purity:committed-state-untouched:OgdenRoxburgh", "purity:committed-state-untouched:Plasticity", "purity:committed-state-untouched:MaterialStrain(linear_elastic)", "purity:repeatable:tt.finite_strain_viscoelastic",
+                       # fourth audit: references of the check's own (closed-form base energy, plastic strain out of the returned stress, the
+                       # caller's ramp dictionary, load vectors of the drawn values)
+                       "or:running-max-closed-form:hand", "or:running-max-closed-form:tensortrax", "plasticity:yield-own", "plasticity:on-surface",
+                       "plasticity:stored-alpha", "plasticity:stored-plastic-strain", "fe-history:own:plasticity", "fe-history:own:ni-ogden-roxburgh",
+                       "fe-history:on-surface:plasticity", "trace:drawn-ramp-order", "trace:continuation-across-steps",
+                       "trace:load-in-effect:force", "trace:load-in-effect:pointload"],
     "rule": ("random load histories on small solids (hex8, tet4, quad4/8 plane strain, axisymmetric, nearly-incompressible, mixed): 1..3 "
              "steps of 1..5 substeps, monotone/cyclic/repeated/random ramps of 1..3 items (boundary, pressure, point load, body force), "
              "jobs with x0 and callbacks, an infeasible substep injected at a random position in every third history; the recorded "
